@@ -128,6 +128,8 @@ structure Given where
 
 structure Decoded where
   codeLen : Nat
+  /-- memory access width reported by the second decoder (x86asm), 0 = none -/
+  xw : Nat
   relocs : List Reloc
   mnem : String
   args : List DArg
@@ -300,7 +302,10 @@ def memMatch (g : Given) (dec : Decoded) (ty : String) (sym : String) (static : 
   -- width
   let widthErr : Option String :=
     match typeBytes ty with
-    | some n => if w != 0 && w != n then some s!"bad-width want {n} got {w}" else none
+    | some n =>
+      if w != 0 && w != n then some s!"bad-width want {n} got {w}"
+      else if dec.xw != 0 && dec.xw != n && !bcst then some s!"bad-width want {n} got {dec.xw} (x86asm)"
+      else none
     | none => none
   let bcstErr : Option String :=
     if bcst != g.sfx.contains "BCST" then some s!"bad-broadcast want {g.sfx.contains "BCST"} got {bcst}" else none
